@@ -67,6 +67,9 @@ class Pipe:
         throughput = throughput if throughput is not None else self.throughput
         self._add_subscriber(identifier, throughput)
         try:
+            if total == 0:
+                # nothing to transfer, but always allow other tasks to run
+                await postpone()
             while transferred < total:
                 window_start = time.now
                 window_throughput = throughput * self._throughput_scale
